@@ -10,16 +10,19 @@ structure Atom where
   /-- a blank follows the atom in the text -/
   blank : Bool
 
-/-- the text after an atom does not continue it and does not start a new token glued to it: end of text, a blank or a comma -/
-def Delim (rest : List Char) : Prop := rest = [] ∨ ∃ r, rest = ' ' :: r ∨ rest = ',' :: r ∨ rest = '\t' :: r
+/-- characters that end a word-like token without being glued to it: blank, comma, tab, line feed, carriage return, `;` -/
+def delimChars : List Char := [' ', ',', '\t', '\n', '\r', ';', ':']
+
+/-- the text after an atom does not continue it: end of text, or one of the delimiter characters -/
+def Delim (rest : List Char) : Prop := rest = [] ∨ ∃ d r, rest = d :: r ∧ d ∈ delimChars
+
+theorem delimChar_facts : ∀ d ∈ delimChars, isWordC d = false ∧ d ≠ '-' ∧ isHexStart d = false := by decide
 
 theorem Delim.endsWord {rest : List Char} (h : Delim rest) : EndsWord rest := by
   intro d hd
-  rcases h with rfl | ⟨r, rfl | rfl | rfl⟩
+  rcases h with rfl | ⟨d', r, rfl, hm⟩
   · simp at hd
-  · simp at hd; subst hd; decide
-  · simp at hd; subst hd; decide
-  · simp at hd; subst hd; decide
+  · simp at hd; subst hd; exact (delimChar_facts _ hm).1
 
 /-- an atom is well-behaved: not empty, does not start with a blank, and in front of a delimiter it is lexed as its token -/
 def Atom.Ok (a : Atom) : Prop :=
@@ -39,7 +42,7 @@ def SeqOk : List Atom → Prop
 theorem delim_after (a : Atom) (as : List Atom) (h : SeqOk (a :: as)) (hok : ∀ x ∈ as, x.Ok) :
     Delim ((if a.blank then [' '] else []) ++ renderAtoms as) := by
   cases hb : a.blank with
-  | true => right; exact ⟨renderAtoms as, Or.inl (by simp)⟩
+  | true => right; exact ⟨' ', renderAtoms as, by simp, by decide⟩
   | false =>
     simp only [Bool.false_eq_true, if_false, List.nil_append]
     cases as with
@@ -47,7 +50,7 @@ theorem delim_after (a : Atom) (as : List Atom) (h : SeqOk (a :: as)) (hok : ∀
     | cons b bs =>
       rcases h.1 with h1 | ⟨cs, hcs⟩
       · rw [hb] at h1; cases h1
-      · right; exact ⟨cs ++ ((if b.blank then [' '] else []) ++ renderAtoms bs), Or.inr (Or.inl (by simp [renderAtoms, hcs]))⟩
+      · right; exact ⟨',', cs ++ ((if b.blank then [' '] else []) ++ renderAtoms bs), by simp [renderAtoms, hcs], by decide⟩
 
 theorem blen_append' (a b : List Char) : blen (a ++ b) = blen a + blen b := by
   induction a with
